@@ -218,6 +218,28 @@ static void gen_c03_extended(std::vector<Case>& cases) {
                 f.vout[1].spk = spk; t.vin[s2.pos].prev_hash = txid(f); });
         }
     }
+    // two inputs of the spending transaction spend DIFFERENT outputs of the same funding transaction: --select=k (and the automatic choice of
+    // the first spender) must take the locking script and amount of the output that very input references
+    { gen::Spend S = gen::make_spend("p2pk", sh);
+      for (int sel : {-1, 1, 2}) for (int swap = 0; swap < 2; swap++) {
+          mk(std::string("two spenders of different outputs, ") + (swap ? "outputs swapped, " : "") + "select=" + std::to_string(sel), S, [&](Tx& f, Tx& t) {
+              f.vout[1].spk = unhex(swap ? "5387" : "5287"); f.vout[2].spk = unhex(swap ? "5287" : "5387");
+              t.vin[1].prev_hash = txid(f); t.vin[1].prev_n = 1; t.vin[1].script_sig = unhex(swap ? "53" : "52");
+              t.vin[2].prev_hash = txid(f); t.vin[2].prev_n = 2; t.vin[2].script_sig = unhex(swap ? "52" : "53"); });
+          cases.back().select = sel;
+          // ... and the input that reveals the OTHER output's satisfaction is invalid
+          mk(std::string("two spenders of different outputs, satisfactions exchanged, ") + (swap ? "outputs swapped, " : "") + "select=" + std::to_string(sel), S, [&](Tx& f, Tx& t) {
+              f.vout[1].spk = unhex(swap ? "5387" : "5287"); f.vout[2].spk = unhex(swap ? "5287" : "5387");
+              t.vin[1].prev_hash = txid(f); t.vin[1].prev_n = 1; t.vin[1].script_sig = unhex(swap ? "52" : "53");
+              t.vin[2].prev_hash = txid(f); t.vin[2].prev_n = 2; t.vin[2].script_sig = unhex(swap ? "53" : "52"); });
+          cases.back().select = sel;
+      } }
+    // a funding script that only BEGINS like P2SH (OP_HASH160 <20> OP_EQUAL followed by more, or EQUALVERIFY instead of EQUAL) is not P2SH:
+    // a wrapped witness spend of it is not a witness spend at all
+    for (std::string type : {"p2sh-p2wpkh", "p2sh-p2wsh"}) { gen::Spend S = gen::make_spend(type, sh);
+      mk(type + " spend of OP_HASH160 <h> OP_EQUAL OP_NOP (24 bytes, not the P2SH template)", S, [&](Tx& f, Tx& t) { f.vout[1].spk.push_back(0x61); t.vin[1].prev_hash = txid(f); });
+      mk(type + " spend of OP_HASH160 <h> OP_EQUALVERIFY OP_1 (not the P2SH template)", S, [&](Tx& f, Tx& t) { f.vout[1].spk.back() = 0x88; f.vout[1].spk.push_back(0x51); t.vin[1].prev_hash = txid(f); });
+      mk(type + " spend of OP_NOP OP_HASH160 <h> OP_EQUAL (not the P2SH template)", S, [&](Tx& f, Tx& t) { f.vout[1].spk.insert(f.vout[1].spk.begin(), 0x61); t.vin[1].prev_hash = txid(f); }); }
     // SIGPUSHONLY (not a standard flag): a scriptSig that is not push-only fails the spend whatever the output type
     { gen::Spend S = gen::make_spend("p2pk", sh);
       for (uint32_t fl : {F_STANDARD | F_SIGPUSHONLY, F_SIGPUSHONLY | F_P2SH, F_STANDARD}) {
